@@ -23,7 +23,7 @@ RULE = ("case = (system/grid/adpt_mesh/adpt_fac/symmetry/rank configuration, fir
         "iteration, transition = one refinement iteration; oracle at every state: saved/returned integral == sum_K "
         "factor_K*R(K) over the snapshot, sum of weights == 1, and all storage modes agree; non-trivial = history of "
         "depth >= 1 (distinct final K-list multisets are counted)")
-ASSUMPTIONS = ["depth <= 2 (quick) / 3 (thorough) refinement iterations; grids with <= 9 initial K-points",
+ASSUMPTIONS = ["depth <= 2 refinement iterations (quick; 3 for the bcc configuration); thorough: depth 3 for adpt_fac=1 and for the 1D chains, 2 otherwise; grids with <= 9 initial K-points",
                "per-K results are scripted (generic recognisable values); the property is about run()'s bookkeeping, which does not look at the values",
                "weight changes below the library's own 1e-8 cut in factors_diff_dict are not reached at these depths",
                "refinement is steered through the result's `max` criterion; dead (zero-weight) points are never selected"]
@@ -51,8 +51,8 @@ def configs(tier):
                 if rank == 1 and not sym and kind != "chain":
                     continue
                 depth = 2
-                if tier == "thorough" and not (kind == "cubic" and fac == 2):
-                    depth = 3
+                if tier == "thorough" and (fac == 1 or kind == "chain"):
+                    depth = 3          # with adpt_fac=2 the number of histories explodes (C(n,2) per level): depth 2
                 if tier == "quick" and kind == "cubic" and fac == 2:
                     depth = 1
                 if kind == "bcc":
